@@ -164,8 +164,24 @@ def shadow_root(scratch_dir):
     return _SHADOW[scratch_dir]
 
 
+_HERMETIC_N = [0]
+
+
+def _hermetic(e):
+    """A real run must not see (or leave) anything in the user's home, cache or temp directories:
+    a tool under test that keeps state between runs would otherwise make one validation case
+    depend on the previous one - and litter the machine."""
+    _HERMETIC_N[0] += 1
+    base = os.path.join(tempfile.gettempdir(), "au-verif-realhome-%d-%d" % (os.getpid(), _HERMETIC_N[0]))
+    shutil.rmtree(base, ignore_errors=True)
+    os.makedirs(os.path.join(base, "tmp"))
+    atexit.register(shutil.rmtree, base, True)
+    e.update({"HOME": base, "XDG_CACHE_HOME": os.path.join(base, ".cache"), "XDG_CONFIG_HOME": os.path.join(base, ".config"), "XDG_DATA_HOME": os.path.join(base, ".local/share"), "TMPDIR": os.path.join(base, "tmp")})
+    return e
+
+
 def _real_run(args, env_extra=None, stdout=None, drop_env=(), cwd=None):
-    e = dict(os.environ)
+    e = _hermetic(dict(os.environ))
     for k in ("PYTHONUNBUFFERED",) + tuple(drop_env):
         e.pop(k, None)
     e["PYTHONHASHSEED"] = "0"
@@ -277,7 +293,7 @@ def exit_model_validation(ctx):
         for cut in (100, 3000, 5000, 7000, 9000):
             limit = n - cut
             outp = os.path.join(ctx.pool.scratch, "fsize.out")
-            e = dict(os.environ)
+            e = _hermetic(dict(os.environ))
             e.pop("PYTHONUNBUFFERED", None)
             e.update({"PYTHONHASHSEED": "0", "PYTHONDONTWRITEBYTECODE": "1", "GIT_DIR": "/nonexistent-dir/.git", "GIT_CEILING_DIRECTORIES": "/"})
 
@@ -299,7 +315,7 @@ def exit_model_validation(ctx):
         for cut in (5000, 150000):
             limit = n - cut
             outp = os.path.join(ctx.pool.scratch, "fsize.out")
-            e = dict(os.environ)
+            e = _hermetic(dict(os.environ))
             e.update({"PYTHONUNBUFFERED": "1", "PYTHONHASHSEED": "0", "PYTHONDONTWRITEBYTECODE": "1", "GIT_DIR": "/nonexistent-dir/.git", "GIT_CEILING_DIRECTORIES": "/"})
 
             def pre(limit=limit):
@@ -355,7 +371,7 @@ def exit_model_validation(ctx):
         cases.append({"case": "stdout=non-blocking pipe, reader lags (%s)" % label, "real": r.returncode, "sim": s["status"], "real_len": len(got), "sim_len": len(d or b""), "bytes_equal": (len(got) < 100000) == (len(d or b"") < 100000)})
     # 8c. file descriptor 2 closed when the tool starts (`2>&-`): sys.stderr is None
     sel_nogit = dict(base_sel, version_id=None)
-    e2 = dict(os.environ)
+    e2 = _hermetic(dict(os.environ))
     e2.pop("PYTHONUNBUFFERED", None)
     e2.update({"PYTHONHASHSEED": "0", "PYTHONDONTWRITEBYTECODE": "1", "GIT_DIR": "/nonexistent-dir/.git", "GIT_CEILING_DIRECTORIES": "/"})
     try:
@@ -612,7 +628,7 @@ def run_campaign(tier, seed, jobs, only_runs=None):
         # One pool for the whole campaign, no barriers between stages: the expensive plans and the
         # sweep plans go first; sessions and stand-alone headers do not depend on anything; the
         # sweep variants and the hash-seed sweep are submitted as soon as their twins are done.
-        splans = _plan.session_plans(tree, seed, tier) + _plan.crash_sweep_sessions(tree, seed, tier)
+        splans = _plan.session_plans(tree, seed, tier) + _plan.crash_sweep_sessions(tree, seed, tier) + _plan.tree_growth_sessions(tree, seed, tier)
         hcases = _plan.header_alone_cases(tree, seed, tier)
         cplans = _plan.concurrent_plans(tree, seed, tier)
         from sim import edge as _edge
